@@ -22,6 +22,17 @@ def sha256 (b : Bytes) : Bytes := (BV.Sha256.hash (ByteArray.mk b.toArray)).toLi
 def taggedHash (tag : String) (b : Bytes) : Bytes :=
   (BV.Sha256.tagged tag (ByteArray.mk b.toArray)).toList
 
+/-- hash tags (pinned against the compiled tree in Props) -/
+def tagChallenge : String := "BIP0340/challenge"
+def tagAux : String := "BIP0340/aux"
+def tagNonce : String := "BIP0340/nonce"
+def tagTapTweak : String := "TapTweak"
+def tagKeyAggList : String := "KeyAgg list"
+def tagKeyAggCoeff : String := "KeyAgg coefficient"
+def tagMusigAux : String := "MuSig/aux"
+def tagMusigNonce : String := "MuSig/nonce"
+def tagNonceCoef : String := "MuSig/noncecoef"
+
 def xorBytes (a b : Bytes) : Bytes := List.zipWith (fun x y => x ^^^ y) a b
 
 /-- HMAC-SHA256 for keys of at most 64 bytes. -/
@@ -115,7 +126,7 @@ def recoverCompact (sig hash : Bytes) : Option (Point × Bool) :=
 /-! ### BIP340 (btcec/schnorr/signature.go) -/
 
 def challenge (rx : Bytes) (pk : Bytes) (m : Bytes) : Nat :=
-  fromBE (taggedHash "BIP0340/challenge" (rx ++ pk ++ m))
+  fromBE (taggedHash tagChallenge (rx ++ pk ++ m))
 
 /-- `schnorrVerify(sig, hash, pubKeyBytes)` step by step. -/
 def schnorrVerify (r s : Nat) (hash pk : Bytes) : Bool :=
@@ -158,8 +169,8 @@ def schnorrSign (d : Nat) (hash : Bytes) (aux : Option Bytes) : Option (Nat × N
   let d' := if hasEvenY P then d else n - d
   match aux with
   | some a =>
-    let t := xorBytes (taggedHash "BIP0340/aux" a) (toBE 32 d')
-    let rand := taggedHash "BIP0340/nonce" (t ++ serializeXOnly P ++ hash)
+    let t := xorBytes (taggedHash tagAux a) (toBE 32 d')
+    let rand := taggedHash tagNonce (t ++ serializeXOnly P ++ hash)
     let k := fromBE rand % n
     if k = 0 then none else schnorrSignCore d' k P hash
   | none => schnorrSignLoop d' P hash 4 0
